@@ -123,13 +123,25 @@ func setPath(v *Term, t types.Type, path []pathStep, nv *Term) *Term {
 	return TE.UpdateField(t, s.field, v, inner)
 }
 
+// heapValType records the Go type of the values held by a heap map (for typing facts about reads that
+// appear in instantiated quantified facts).
+var heapValType = map[string]types.Type{}
+
 func fieldMapName(structT types.Type, i int) string {
 	st := structT.Underlying().(*types.Struct)
-	return "f:" + typeKey(structT) + "." + st.Field(i).Name()
+	n := "f:" + typeKey(structT) + "." + st.Field(i).Name()
+	if _, ok := heapValType[n]; !ok {
+		heapValType[n] = st.Field(i).Type()
+	}
+	return n
 }
 
 func arrMapName(elem types.Type) string {
-	return "arr:" + TE.SortOf(elem).Name
+	n := "arr:" + TE.SortOf(elem).Name
+	if _, ok := heapValType[n]; !ok {
+		heapValType[n] = elem
+	}
+	return n
 }
 
 // ---- constants ----
